@@ -6,7 +6,9 @@ import (
 	"fmt"
 	"os"
 
+	"verifharness/fw"
 	"verifharness/props/c02"
+	"verifharness/props/c04"
 	"verifharness/props/c05"
 	"verifharness/props/c09"
 	"verifharness/props/c11"
@@ -22,6 +24,8 @@ func main() {
 	switch os.Args[1] {
 	case "C02":
 		out = c02.RunOps(d.Ops)
+	case "C04":
+		out = c04.Prop{}.RunImpl(fw.Case{Ops: d.Ops})
 	case "C09":
 		out = c09.RunOps(d.Ops)
 	case "C05":
